@@ -300,6 +300,52 @@ func suiteWsRelay(e *vh.Env) {
 			e.Op(bad.op, obs)
 			e.Count("malformed:" + obs)
 		}
+		if i%3 == 0 {
+			// last words: the server sends a few messages and closes at once, while no poll is outstanding; the
+			// client's later polls must still deliver every one of them (then the session is reported closed)
+			var last []wsMsg
+			for k := 1 + rng.Intn(14); k > 0; k-- {
+				last = append(last, genMsg(rng, false))
+			}
+			for _, m := range last {
+				bc.WriteMessage(m.typ, m.data)
+			}
+			bc.WriteControl(websocket.CloseMessage, websocket.FormatCloseMessage(websocket.CloseNormalClosure, ""), time.Now().Add(time.Second))
+			time.Sleep(time.Duration(20+rng.Intn(100)) * time.Millisecond)
+			bc.Close()
+			var got []wsMsg
+			for tries := 0; tries < 50; tries++ {
+				c, rb := shimCall(h, "poll", `{"id":"`+open.ID+`"}`, nil)
+				if c != 200 {
+					break
+				}
+				var arr []interface{}
+				if json.Unmarshal([]byte(rb), &arr) != nil {
+					break
+				}
+				for _, x := range arr {
+					switch v := x.(type) {
+					case string:
+						got = append(got, wsMsg{websocket.TextMessage, []byte(v)})
+					case []interface{}:
+						if len(v) == 1 {
+							if sv, ok := v[0].(string); ok {
+								d, _ := base64.StdEncoding.DecodeString(sv)
+								got = append(got, wsMsg{websocket.BinaryMessage, d})
+							}
+						}
+					}
+				}
+			}
+			okAll := len(got) == len(last)
+			for j := 0; okAll && j < len(last); j++ {
+				okAll = got[j].typ == last[j].typ && bytes.Equal(got[j].data, last[j].data)
+			}
+			if !okAll {
+				e.Fail("C11:server-messages-lost", fmt.Sprintf("the server sent %d messages and closed while no poll was outstanding; the client's polls then delivered %d of them", len(last), len(got)), i, nil, len(got), len(last))
+			}
+			e.Count("last-words-before-server-close")
+		}
 		shimCall(h, "close", `{"id":"`+open.ID+`"}`, nil)
 		e.Eval(fmt.Sprint(i), long)
 		e.Count(fmt.Sprintf("long=%v", long))
